@@ -76,6 +76,9 @@ def r1_literal_delimiters(ctx):
                         fns.append((n.name + '.' + c.name, c))
         for q, fn, what, node in _scan(ctx, name, fns):
             ex = EXEMPT.get((name, q, what))
+            if ex is None and name == 'map_walker' and what == 'Segment':
+                # the placeholder exemption goes with the construct, not with the function a refactoring put it in
+                ex = EXEMPT.get(('map_walker', 'walk_tree.walk', 'Segment'))
             key = km('%s:%s %s %s' % (name, q, what, norm(node, 60)))
             if ex:
                 seen_ex.add((name, q, what))
@@ -84,7 +87,11 @@ def r1_literal_delimiters(ctx):
                 if what == 'Segment':
                     # placeholder: first argument built from a map node id, no element separator inside
                     a0 = node.args[0]
-                    ok = isinstance(a0, ast.BinOp) and A.const(a0.left) == '%s' and 'id' in norm(a0.right)
+                    ok = (isinstance(a0, ast.BinOp) and A.const(a0.left) == '%s' and norm(a0.right).endswith('.id')) or \
+                        (isinstance(a0, ast.Attribute) and a0.attr == 'id')
+                    # ... of a map node: a name bound in this function from the map (parameter or loop variable), never segment data
+                    base_nm = norm(a0.right if isinstance(a0, ast.BinOp) else a0).split('.')[0].strip('(')
+                    ok = ok and base_nm not in ('seg_data', 'seg', 'self')
                     why = 'exempted placeholder no longer has the shape Segment(\'%s\' % node.id, ...)'
                 if what == 'format':
                     par = A.parent(node)
